@@ -150,3 +150,23 @@ Qed.
 (** the selector's default is the thread variant, as the model's docstring says *)
 Lemma to_aiter_default_thread : to_aiter_flag_default = true.
 Proof. reflexivity. Qed.
+
+(** ---- the facts about the class and its alias the translator emits ---- *)
+
+(** `async for` works on a to_aiter: its only base is AsyncIterator[T] (checked by the translator, which fails
+    otherwise) and `__aiter__` is the inherited one *)
+Lemma to_aiter_async_iterable : to_aiter_aiter_inherited = true.
+Proof. reflexivity. Qed.
+
+(** the flag a call site ends up with *)
+Definition flag_of (o : option bool) : bool := match o with Some b => b | None => to_aiter_flag_default end.
+
+(** `aiterable(it)` = `to_aiter(it, thread=False)`: the iterable is passed unchanged (translator), the flag is False *)
+Theorem aiterable_tie items ls :
+  snd (itrun_from to_aiter_methods to_aiter_selector (flag_of aiterable_thread) (itinit items) ls) = touts false items ls.
+Proof. change (flag_of aiterable_thread) with false. apply to_aiter_tie. Qed.
+
+(** `to_aiter(it)` without `thread=`: the default of the regenerated __init__ *)
+Theorem to_aiter_default_tie items ls :
+  itouts (flag_of None) items ls = touts true items ls.
+Proof. change (flag_of None) with true. apply to_aiter_tie. Qed.
